@@ -433,7 +433,7 @@ class SymEval:
                             attrs.add((d, n.target.attr))
         return names, attrs
 
-    def _loop(self, kind, st, frame, iter_term, target, cond_ast=None):
+    def _loop(self, kind, st, frame, iter_term, target, cond_ast=None, proj=None):
         names, attrs = self._assigned_names(st.body)
         tnames = set()
         if target is not None:
@@ -446,7 +446,7 @@ class SymEval:
         # (assignments under constant-false conditions do not make a name loop-carried)
         snap = (len(self.events), dict(frame.env), dict(self.heap), self.live, dict(self.loops), dict(self.closures))
         lid = self.uid()
-        info = self._loop_pass(lid, kind, st, frame, iter_term, target, cond_ast, carried, carried_attrs)
+        info = self._loop_pass(lid, kind, st, frame, iter_term, target, cond_ast, carried, carried_attrs, proj)
         really = [n for n in carried if info.env_out.get(n) != info.env_in.get(n)]
         really_attrs = [(d, a) for d, a in carried_attrs if self.heap.get((T.sym(d), a)) != T.sym(f"loop{lid}:{d}.{a}")]
         if really != carried or really_attrs != carried_attrs:
@@ -454,7 +454,7 @@ class SymEval:
             frame.env, self.heap, self.live = dict(snap[1]), dict(snap[2]), snap[3]
             self.loops, self.closures = dict(snap[4]), dict(snap[5])
             lid = self.uid()
-            info = self._loop_pass(lid, kind, st, frame, iter_term, target, cond_ast, really, really_attrs)
+            info = self._loop_pass(lid, kind, st, frame, iter_term, target, cond_ast, really, really_attrs, proj)
         self.loops[lid] = info
         # after the loop: carried names are unknown
         for n in (names if really == carried else set(really) | (names - set(carried))):
@@ -502,7 +502,7 @@ class SymEval:
                     continue
                 frame.env[n] = ("comp", "dict", ("tuple", v[1][0]), ((tname, iter_term),), conds_of(sts[0].guard))
 
-    def _loop_pass(self, lid, kind, st, frame, iter_term, target, cond_ast, carried, carried_attrs) -> LoopInfo:
+    def _loop_pass(self, lid, kind, st, frame, iter_term, target, cond_ast, carried, carried_attrs, proj=None) -> LoopInfo:
         pre_env = dict(frame.env)
         env_in = {}
         for n in carried:
@@ -511,7 +511,8 @@ class SymEval:
         for d, a in carried_attrs:
             self.heap[(T.sym(d), a)] = T.sym(f"loop{lid}:{d}.{a}")
         if target is not None:
-            self.assign(target, ("elem", iter_term, lid), frame, st)
+            el = ("elem", iter_term, lid)
+            self.assign(target, el if proj is None else T.mk_index(el, T.const(proj)), frame, st)
         live0 = self.live
         self.loop_stack = self.loop_stack + (lid,)
         cond_t = None
@@ -528,7 +529,8 @@ class SymEval:
 
     def st_For(self, st, frame):
         it = self.eval(st.iter, frame)
-        self._loop("for", st, frame, it, st.target)
+        it, proj = canon_iter(it)
+        self._loop("for", st, frame, it, st.target, proj=proj)
 
     def st_While(self, st, frame):
         self._loop("while", st, frame, None, None, cond_ast=st.test)
@@ -837,6 +839,10 @@ class SymEval:
         mapping: Dict[Term, Term] = {}
         if k == el:
             mapping[el] = key
+            if it[0] in ("sym", "attr", "index"):  # `{k: f(d[k]) for k in d}`: d[k] is in its canonical items() form
+                canon = T.mk_index(it, el)
+                if canon != ("index", it, el):
+                    mapping[canon] = T.mk_index(it, key)
         elif k == T.mk_index(el, T.const(0)) and it[0] == "call" and isinstance(it[1], str) and it[1].endswith(".items"):
             mapping[k] = key
             mapping[T.mk_index(el, T.const(1))] = T.mk_index(T.sym(it[1][: -len(".items")]), key)
@@ -885,7 +891,9 @@ class SymEval:
                 # iterating over `[x for x in A if c(x)]` is iterating over A under c(x)
                 inner_elem, inner_conds, it = it[2], it[4], it[3][0][1]
                 inherited = tuple(T.subst(c, {inner_elem: ("elem", it, cid)}) for c in inner_conds)
-            self.assign(g.target, ("elem", it, cid), frame, e)
+            it, proj = canon_iter(it)
+            el = ("elem", it, cid)
+            self.assign(g.target, el if proj is None else T.mk_index(el, T.const(proj)), frame, e)
             gens.append((_dotted(g.target) or ast.unparse(g.target), it))
             for ct in inherited:
                 conds.append(ct)
@@ -936,6 +944,17 @@ class SymEval:
                 kwargs.append(("**", self.eval(k.value, frame)))
             else:
                 kwargs.append((k.arg, self.eval(k.value, frame)))
+        # f(**dict(a=x, b=y)) / f(**{"a": x}) is f(a=x, b=y): expand literal keyword dictionaries
+        if any(k == "**" for k, _ in kwargs):
+            expanded = []
+            for k, v in kwargs:
+                if k == "**" and v[0] == "call" and v[1] == "dict" and not v[2] and all(kk != "**" for kk, _ in v[3]):
+                    expanded.extend(v[3])
+                elif k == "**" and v[0] == "dict" and v[1] and all(kk[0] == "const" and isinstance(kk[1], str) for kk, _ in v[1]):
+                    expanded.extend((kk[1], vv) for kk, vv in v[1])
+                else:
+                    expanded.append((k, v))
+            kwargs = expanded
         # local list accumulation: x = []; ...; x.append(v)  ->  x becomes an 'accum' term that remembers what was
         # appended under which guard (the list object is local, so this is not an effect)
         if method in ("append", "extend") and isinstance(e.func.value, ast.Name) and recv is not None \
@@ -1320,6 +1339,19 @@ class SymEval:
         return None
 
 
+def canon_iter(it: Term):
+    """Iteration over `d.values()` / `d.keys()` is iteration over `d.items()` projected to component 1 / 0: one normal form for
+    the three spellings.  Returns (iterable, projection or None)."""
+    if it[0] == "call" and not it[2] and not it[3]:
+        f = it[1]
+        for meth, proj in (("values", 1), ("keys", 0)):
+            if isinstance(f, str) and f.endswith("." + meth):
+                return ("call", f[:-len(meth)] + "items", (), (), it[4]), proj
+            if isinstance(f, tuple) and f[0] == "attr" and f[2] == meth:
+                return ("call", ("attr", f[1], "items"), (), (), it[4]), proj
+    return it, None
+
+
 def _acc_join(a: Term, b: Term) -> Optional[Term]:
     """phi of a local list that one branch appended to: the items carry their own guards, so the longer accumulation is
     the merged value (instead of ite(cond, longer, shorter))."""
@@ -1372,7 +1404,18 @@ def _first_param(fn) -> Optional[str]:
 
 def _is_simple_property(fn) -> bool:
     body = [s for s in fn.body if not (isinstance(s, ast.Expr) and isinstance(s.value, ast.Constant))]
-    return len(body) == 1 and isinstance(body[0], ast.Return)
+    if not body or not isinstance(body[-1], ast.Return):
+        return False
+    # straight-line: local bindings and nested defs before the single return
+    for st in body[:-1]:
+        if isinstance(st, ast.FunctionDef):
+            continue
+        if isinstance(st, ast.Assign) and all(isinstance(t, ast.Name) for t in st.targets):
+            continue
+        if isinstance(st, ast.AnnAssign) and isinstance(st.target, ast.Name):
+            continue
+        return False
+    return True
 
 
 def _as_load(node):
